@@ -178,6 +178,35 @@ def value_sources(func: Func, expr: ast.AST, at: Optional[ast.AST] = None, depth
     return params, visited
 
 
+def free_loads(node: ast.AST, bound: frozenset = frozenset()):
+    """Name loads of `node` that refer to the function's own variables (not to comprehension / lambda variables)."""
+    if isinstance(node, (ast.ListComp, ast.SetComp, ast.GeneratorExp, ast.DictComp)):
+        b = set(bound)
+        for i, g in enumerate(node.generators):
+            # the first iterable is evaluated in the enclosing scope
+            yield from free_loads(g.iter, frozenset(b) if i else bound)
+            b |= {x.id for x in ast.walk(g.target) if isinstance(x, ast.Name)}
+            for c in g.ifs:
+                yield from free_loads(c, frozenset(b))
+        fb = frozenset(b)
+        if isinstance(node, ast.DictComp):
+            yield from free_loads(node.key, fb)
+            yield from free_loads(node.value, fb)
+        else:
+            yield from free_loads(node.elt, fb)
+        return
+    if isinstance(node, ast.Lambda):
+        b = bound | {a.arg for a in node.args.args + node.args.kwonlyargs}
+        yield from free_loads(node.body, frozenset(b))
+        return
+    if isinstance(node, ast.Name):
+        if isinstance(node.ctx, ast.Load) and node.id not in bound:
+            yield node
+        return
+    for c in ast.iter_child_nodes(node):
+        yield from free_loads(c, bound)
+
+
 def loop_carried(func: Func, loop_stmt: ast.AST, ignore: Set[str] = frozenset()) -> List[Tuple[str, ast.AST, ast.AST]]:
     """(name, use, defining statement) for every name read inside ``loop_stmt``'s body whose value may
     come from a *previous* iteration of that loop: a definition inside the body that reaches the loop
@@ -218,8 +247,8 @@ def loop_carried(func: Func, loop_stmt: ast.AST, ignore: Set[str] = frozenset())
         if a is None or not IN[n]:
             continue
         for sub in _header_nodes(a, cfg.kind(n)):
-            for x in ast.walk(sub):
-                if isinstance(x, ast.Name) and isinstance(x.ctx, ast.Load) and x.id not in ignore:
+            for x in free_loads(sub):
+                if x.id not in ignore:
                     for (nm, dn) in IN[n]:
                         if nm == x.id and (nm, dn, n) not in seen:
                             seen.add((nm, dn, n))
